@@ -5,6 +5,7 @@ import (
 	"flag"
 	"fmt"
 	"os"
+	"runtime"
 	"sort"
 	"strings"
 	"sync"
@@ -35,6 +36,12 @@ type Component struct {
 	Quick, Thorough int
 	// Compare (optional) overrides string equality of one output line.
 	Compare func(line, impl, model string) bool
+	// Valid (optional) rejects shrink candidates that are not well-formed inputs (e.g. a message
+	// stream outside the PostgreSQL grammar), so that a shrunk replay still means something.
+	Valid func(lines []string) bool
+	// Serial: the real code uses package-level state (e.g. the marshaller's pooled maps), so only
+	// one case may run at a time in a process; the check script shards such components over processes.
+	Serial bool
 	// Stats (optional) lets a component add measured distribution counters.
 	Stats func(lines, outs []string, d map[string]int)
 }
@@ -191,6 +198,8 @@ func main() {
 	corpusDir := flag.String("corpus", "/verif/corpus", "corpus directory")
 	workers := flag.Int("workers", 8, "parallel workers")
 	list := flag.Bool("list", false, "list components")
+	shard := flag.Int("shard", 0, "this process handles cases with index % shards == shard")
+	shards := flag.Int("shards", 1, "number of shard processes")
 	flag.Parse()
 
 	if *list {
@@ -206,6 +215,9 @@ func main() {
 	if !ok {
 		fmt.Fprintf(os.Stderr, "unknown component %q\n", *comp)
 		os.Exit(2)
+	}
+	if c.Serial {
+		*workers = 1
 	}
 	start := time.Now()
 	res := &Result{Component: c.Name, Tier: *tier, Seed: *seed, Distribution: map[string]int{}}
@@ -226,6 +238,9 @@ func main() {
 		jobs = append(jobs, job{-1, 0, cs})
 	} else {
 		for i, cs := range loadCorpus(*corpusDir, c.Name) {
+			if i%*shards != *shard {
+				continue
+			}
 			jobs = append(jobs, job{-1000 - i, 0, cs})
 		}
 		n := c.Quick
@@ -238,11 +253,15 @@ func main() {
 		master := NewRng(*seed ^ hashName(c.Name))
 		for i := 0; i < n; i++ {
 			s := master.U64()
+			if i%*shards != *shard {
+				continue
+			}
 			jobs = append(jobs, job{i, s, c.Gen(NewRng(s), *tier)})
 		}
 	}
 
 	var mu sync.Mutex
+	shrunkCount := map[string]int{}
 	seen := map[string]bool{}
 	jobCh := make(chan job)
 	var wg sync.WaitGroup
@@ -262,7 +281,11 @@ func main() {
 			}
 			defer m.Close()
 			for j := range jobCh {
+				tJob := time.Now()
 				lines, outs := safeRun(c, j.cs)
+				if os.Getenv("VERIF_DEBUG") != "" {
+					fmt.Fprintf(os.Stderr, "case %d run %.2fs goroutines=%d\n", j.idx, time.Since(tJob).Seconds(), runtime.NumGoroutine())
+				}
 				mouts, at, bad, err := compareWithModel(c, m, lines, outs)
 				if err != nil {
 					mu.Lock()
@@ -274,6 +297,9 @@ func main() {
 				if at >= 0 {
 					// shrink: the predicate re-runs both sides
 					pred := func(cand Case) bool {
+						if c.Valid != nil && !c.Valid(cand.Lines) {
+							return false
+						}
 						l2, o2 := safeRun(c, cand)
 						_, a2, _, e2 := compareWithModel(c, m, l2, o2)
 						return e2 == nil && a2 >= 0
@@ -293,6 +319,9 @@ func main() {
 						vv := v
 						// shrink monitor failures too (same property, same known-signature)
 						pred := func(cand Case) bool {
+							if c.Valid != nil && !c.Valid(cand.Lines) {
+								return false
+							}
 							l2, o2 := safeRun(c, cand)
 							for _, v2 := range c.Monitor(l2, o2, m) {
 								if v2.Property == vv.Property && v2.Known == vv.Known {
@@ -301,7 +330,19 @@ func main() {
 							}
 							return false
 						}
-						small := shrink(j.cs, pred, 10*time.Second)
+						budget := 4 * time.Second
+						if vv.Known != "" {
+							budget = 1 * time.Second // a recorded finding: a small replay is nice to have only
+						}
+						// shrink only the first few hits of each kind: the rest add nothing but time
+						mu.Lock()
+						shrunkCount[vv.Property+"/"+vv.Known]++
+						nth := shrunkCount[vv.Property+"/"+vv.Known]
+						mu.Unlock()
+						if nth > 2 {
+							budget = 0
+						}
+						small := shrink(j.cs, pred, budget)
 						l2, o2 := safeRun(c, small)
 						hits = append(hits, MonitorHit{j.idx, j.seed, l2, o2, vv})
 					}
